@@ -22,7 +22,6 @@ open Rare Rare.C13 Rare.Proto
 
 def commaList (s : String) : List String := if s = "." then [] else s.splitOn ","
 
-def asciiLower (k : Key) : Key := k.map (fun c => if 65 ≤ c ∧ c ≤ 90 then c + 32 else c)
 def isAscii (k : Key) : Bool := k.all (· < 128)
 
 def parsePF (s : String) : Option PF :=
